@@ -562,6 +562,30 @@ class Live(Family):
 # family 4: the real GeminiClient.get / upload against permissive loopback peers, in histories
 # ------------------------------------------------------------------------------------------------
 CLIENT_MODES = {"tofu": 7, "ca": 8, "plain": 9, "tofu_cert": 10, "custom": 9}   # -> row of Gen.contextPaths
+# client identities the TLS library's own policy objects to (a 1024-bit RSA key, a SHA-1 signature): whatever the library does about
+# them - refuse to build the client, or carry on - no handshake below TLS 1.2 may follow.  Direct oracle only (no model line).
+WEAK_CLIENT_MODES = ("tofu_weakkey", "ca_weakkey", "tofu_sha1")
+_WEAK_IDS: dict = {}
+
+
+def weak_identity(kind: str) -> tuple[bytes, bytes]:
+    if kind not in _WEAK_IDS:
+        import datetime
+
+        from cryptography import x509
+        from cryptography.hazmat.primitives import hashes, serialization
+        from cryptography.hazmat.primitives.asymmetric import rsa
+        from cryptography.x509.oid import NameOID
+
+        key = rsa.generate_private_key(65537, 1024 if kind.endswith("weakkey") else 2048)
+        name = x509.Name([x509.NameAttribute(NameOID.COMMON_NAME, "weak client")])
+        now = datetime.datetime.now(datetime.timezone.utc)
+        cert = (x509.CertificateBuilder().subject_name(name).issuer_name(name).public_key(key.public_key()).serial_number(x509.random_serial_number())
+                .not_valid_before(now - datetime.timedelta(days=1)).not_valid_after(now + datetime.timedelta(days=30))
+                .sign(key, hashes.SHA1() if kind.endswith("sha1") else hashes.SHA256()))
+        _WEAK_IDS[kind] = (cert.public_bytes(serialization.Encoding.PEM),
+                           key.private_bytes(serialization.Encoding.PEM, serialization.PrivateFormat.TraditionalOpenSSL, serialization.NoEncryption()))
+    return _WEAK_IDS[kind]
 OLD_RANGES = [(1, 1), (1, 2), (2, 2), (0, 2), (0, 1)]
 MODERN_RANGES = [(3, 4), (3, 3), (4, 4), (1, 4), (2, 3), (0, 4)]
 
@@ -603,6 +627,10 @@ class ClientHistories(Family):
                     out.append((mode, op, [((3, 4), False), (old, True)]))          # ... and the first connection is reset
                 out.append((mode, op, [((1, 2), True)]))
                 out.append((mode, op, [((3, 4), False), ((1, 4), False), ((2, 2), False), ((3, 3), False)]))
+        for mode in WEAK_CLIENT_MODES:
+            for op in self._ops()[:2]:
+                out.append((mode, op, [((1, 2), False)]))
+                out.append((mode, op, [((3, 4), False), ((1, 1), False)]))
         return out
 
     def gen(self, rng: random.Random, n: int):
@@ -651,6 +679,13 @@ class ClientHistories(Family):
                     (Path(tmp) / "cc.pem").write_bytes(cc)
                     (Path(tmp) / "ck.pem").write_bytes(ck)
                     kw.update(verify_ssl=False, trust_on_first_use=True, client_cert=Path(tmp) / "cc.pem", client_key=Path(tmp) / "ck.pem")
+                elif mode in WEAK_CLIENT_MODES:
+                    cc, ck = weak_identity(mode)
+                    (Path(tmp) / "wc.pem").write_bytes(cc)
+                    (Path(tmp) / "wk.pem").write_bytes(ck)
+                    if mode.startswith("ca"):
+                        os.environ["SSL_CERT_FILE"] = cf
+                    kw.update(verify_ssl=mode.startswith("ca"), trust_on_first_use=not mode.startswith("ca"), client_cert=Path(tmp) / "wc.pem", client_key=Path(tmp) / "wk.pem")
                 elif mode == "ca":
                     # CA mode verifies the peer against the default trust store: make the harness's certificate
                     # the trust store (the way a user would, via SSL_CERT_FILE) so that a handshake CAN succeed
@@ -668,8 +703,13 @@ class ClientHistories(Family):
                 client = None
                 for i, st in enumerate(case["steps"]):
                     peer.set_step(i, st["lo"], st["hi"], st["reset_first"])
-                    if client is None or not case["reuse_client"]:
-                        client = make_client()
+                    try:
+                        if client is None or not case["reuse_client"]:
+                            client = make_client()
+                    except Exception as e:  # noqa: BLE001  (the library refuses to build a client with this identity: no connection is made)
+                        outcomes.append("error:client-not-built:" + type(e).__name__)
+                        client = None
+                        continue
                     try:
                         if case["op"] == "get":
                             r = await client.get(url)
@@ -701,6 +741,8 @@ class ClientHistories(Family):
             shutil.rmtree(tmp, ignore_errors=True)
 
     def model(self, case):
+        if case["mode"] in WEAK_CLIENT_MODES:
+            return None
         return f"tlsvers {CLIENT_MODES[case['mode']]} " + " ".join(f"{s['lo']} {s['hi']}" for s in case["steps"])
 
     def expect(self, case, out):
